@@ -143,9 +143,10 @@ def run_case(ctx, k, rng):
             ok = float(vl) == v
             info = {"list": vl}
             if A.size and B.size and np.all(A == np.round(A)) and np.all(B == np.round(B)) and scale_of(A, B) < 1e9:
-                vi = call(ctx, A.astype(np.int64), B.astype(np.int64))
+                (ia, da), (ib, db) = vforms.as_int_dtype(rng, A), vforms.as_int_dtype(rng, B)
+                vi = call(ctx, ia, ib)
                 ok = ok and float(vi) == v
-                info["int"] = vi
+                info["int"] = vi; info["int_dtypes"] = [da, db]
                 ctx.note("int-form-cases")
             if A.size and B.size:
                 (fa, na), (fb, nb) = vforms.relayout(rng, A), vforms.relayout(rng, B)
@@ -154,6 +155,15 @@ def run_case(ctx, k, rng):
                 info["layout"] = [na, nb, vf]
                 ctx.note("layout-form-cases")
             ctx.check("list/int forms agree", ok, base=v, **info)
+            if rng.random() < 0.3:
+                # narrow integer dtypes with values over most of their range (uint8 filtration values of an 8-bit image, ...)
+                ia, fa_, da = vforms.near_limit_int_diagram(rng, int(rng.integers(1, 7)))
+                ib, fb_, db = vforms.near_limit_int_diagram(rng, int(rng.integers(1, 7)), dtypes=(np.dtype(da).type,))
+                ctx.set_payload({"dgm1": ia, "dgm2": ib, "dtype": da})
+                vi, vf = call(ctx, ia, ib), call(ctx, fa_, fb_)
+                thr2 = OM.bottleneck_threshold(OM.finite_rows(fa_), OM.finite_rows(fb_))
+                ctx.check("narrow integer dtype near its limits == float64 of the same values", float(vi) == float(vf) == thr2, int_form=vi,
+                          float_form=vf, oracle=thr2, dtype=da)
         except Exception as e:
             ctx.exception("list/int forms agree", e)
     else:           # swapping the arguments / reordering rows cannot change a min over all matchings
